@@ -227,6 +227,7 @@ package cluster
 // A record is deleted locally only after the destination stored all of them.
 //@ func (*ClusterNode).syncUserCollections$2
 //@   property C14
+//@   requires c.cfg.RpcRetries >= 1
 //@   before Write requires lastres(RPCSetNodeKeyValue) == nil && rpcResp.Count == len(req.KeyValues)
 
 // The node configuration is read from the config file at start-up and never written afterwards.
